@@ -10,7 +10,7 @@
    in flight and the remote is no longer enumerated.  [teardown_premises_met] exhibits such a state
    reached with two calls in flight, a gated handler and a late response.
    Goroutine count / memory of the real process are observed by the teardown monitor of the run. *)
-From Verif Require Import Base Link LinkProofs LinkInvC LinkInvT.
+From Verif Require Import Base Link LinkProofs LinkInvC LinkInvT Stream StreamG StreamGProofs.
 
 Theorem close_empties_table :
   forall s, tbl (do_close s) = [] /\ bclosed (do_close s) = true /\
@@ -81,3 +81,33 @@ Theorem teardown_premises_are_met :
             tget (threads s) TLink = Some LReturned.
 Proof. exact teardown_premises_met. Qed.
 Print Assumptions teardown_premises_are_met.
+
+(* ---- the stream API's own goroutine (LinkStream's decoder; StreamG.v): once the link context is cancelled it
+   is inside the application's decode, gone, or can leave by a step of its own - whatever the readers do, in
+   particular when they have stopped and the peer keeps sending ---- *)
+Theorem stream_decoder_never_waits_in_vain :
+  forall s, gcancelled s = true ->
+    match dec s with
+    | DSendReq _ _ | DSendRes _ =>
+        exists s', gstep fixed s ADecCtx = Some s' /\ dec s' = DExit /\ gdone s' = Some ctx_err
+    | _ => True
+    end.
+Proof. exact decoder_never_waits_in_vain_lemma. Qed.
+Print Assumptions stream_decoder_never_waits_in_vain.
+
+(* a reader inside its read function when decodeDone is closed can take that case: the reads return *)
+Theorem stream_readers_wake :
+  forall v s n, gdone s = Some n ->
+    (rq s = RInRead -> gstep v s AFailReq <> None) /\ (rs s = RInRead -> gstep v s AFailRes <> None).
+Proof. exact readers_wake_lemma. Qed.
+Print Assumptions stream_readers_wake.
+
+(* the tree as found (D3): the request reader has stopped, the link context is cancelled, the peer sends one
+   more request: the decoder is blocked in its hand-over for ever; with the repair it leaves *)
+Theorem D3_refuted :
+  exists s, grun legacy (ginit d3_input) d3_sched = Some s /\ gcancelled s = true /\ rq s = RGone /\
+            dec s = DSendReq 5%N None /\
+            (forall l s', grun legacy s l = Some s' -> dec s' = DSendReq 5%N None) /\
+            (exists s2, grun fixed (ginit d3_input) (d3_sched ++ [ADecCtx]) = Some s2 /\ dec s2 = DExit).
+Proof. exact D3_refuted_lemma. Qed.
+Print Assumptions D3_refuted.
